@@ -1,0 +1,16 @@
+//go:build verif
+
+package hashcash
+
+// VerifBits reports whether hash starts with at least bits zero bits, as the
+// verifier and the solver decide it.
+func VerifBits(hash []byte, bits int) bool {
+	n := bits / 8
+	if bits%8 > 0 {
+		n++
+	}
+	if n > len(hash) {
+		return false
+	}
+	return verifyBits(hash[:n], bits, n)
+}
